@@ -26,6 +26,8 @@ pub struct Profile {
     /// drop_range, clear, ingest, reopen, snap_open, snap_close, scan, prefix, clock
     pub w: [u32; 18],
     pub tiny_everything: bool,
+    /// allow bulk ingestion when the tree is key-value separated
+    pub blob_ingest: bool,
 }
 
 pub const W_WRITE: usize = 0;
@@ -71,6 +73,7 @@ impl Profile {
             max_ops: 60,
             w,
             tiny_everything: true,
+            blob_ingest: false,
         }
     }
 }
@@ -571,6 +574,11 @@ pub fn gen_run(property: &str, seed: u64, p: &Profile) -> RunSpec {
         if i != W_WRITE && i != W_FLUSH_ACTIVE && *w > 0 && r.chance(1, 5) {
             *w = 0;
         }
+    }
+    if cfg.blob.is_some() && !p.blob_ingest {
+        // ingestion into a key-value-separated tree is exercised by C08/C14 only, so that one
+        // known defect there (DESIGN 6) does not turn every other check red
+        weights[W_INGEST] = 0;
     }
     let n_ops = p.min_ops + r.usize(p.max_ops - p.min_ops + 1);
     let mut st = GenState {
